@@ -813,6 +813,33 @@ def r1_score_order(run):
         if len(r.value.elts) != 5:
             raise UnknownIdiom('match_score returns a %d-tuple' % len(r.value.elts))
 
+    model = _ParamModel(roles, other)
+    subsets = _subsets(_MODEL_UNIVERSE)
+    verdicts: Dict[Tuple[int, str], _ExactVerdict] = {}
+
+    def exact_verdict(ret, e) -> _ExactVerdict:
+        """the component `e` of `ret` on every pair of name sets consistent with the tests that dominate `ret`"""
+        key = (id(ret), unparse(e))
+        if key not in verdicts:
+            feasible, direct, unreadable = [], {}, []
+            for nid in cfg.nodes_for(ret):
+                f2, d2, u2 = _parameter_cases(cfg, roles, other, nid)
+                feasible += [c for c in f2 if c not in feasible]
+                direct.update(d2)
+                unreadable += u2
+            rows = []
+            for A in subsets:
+                for B in subsets:
+                    if (not A, not B) not in feasible:
+                        continue
+                    if direct.get('xor') and (direct['xor'] == 'empty') != (A == B):
+                        continue
+                    if direct.get('and') and (direct['and'] == 'empty') != (not A & B):
+                        continue
+                    rows.append((A, B, model.value(e, A, B)))
+            verdicts[key] = _ExactVerdict(rows, unreadable)
+        return verdicts[key]
+
     # (a) components by role, on EVERY return of a real score.  A component is
     #     either derived (def-use) from its documented source, or it is a
     #     literal; literals are decided in (b2) from the branch outcomes that
@@ -827,6 +854,15 @@ def r1_score_order(run):
                 continue
             attrs, ops = roles.features(e)
             role = _role_of(attrs, ops)
+            if role is None and attrs == {'params'}:
+                # not one of the spelled-out derivations: decide on the model whether it IS the exact-parameter
+                # criterion; in that criterion's own position a modelled expression that is not is a look-alike (b)
+                try:
+                    if exact_verdict(ret, e).exact or i == 2:
+                        role = 2
+                except _OutOfModel as why:
+                    raise UnknownIdiom('match_score: component %d (%s) depends on %s via %s - no known role (%s)' % (
+                        i + 1, short(e, 40), sorted(attrs), sorted(ops), why))
             if role is None:
                 raise UnknownIdiom('match_score: component %d (%s) depends on %s via %s - no known role' % (
                     i + 1, short(e, 40), sorted(attrs), sorted(ops)))
@@ -870,21 +906,34 @@ def r1_score_order(run):
                       where=ms.loc(_assignments(ms.node, e.id)[0][0]),
                       runtime_witness='text/* preferred over text/plain for media type text/plain')
         e = comp_with_role(ret, 2)
-        if e is not None and (2, unparse(e)) not in done:
-            done.add((2, unparse(e)))
-            e2 = _expand_name(ms, e)
-            if isinstance(e2, ast.IfExp) and _is_const_num(e2.body) and _is_const_num(e2.orelse):
-                test, a, b = e2.test, e2.body.value, e2.orelse.value
-                if isinstance(test, ast.UnaryOp) and isinstance(test.op, ast.Not):
-                    test, a, b = test.operand, b, a
-                if not _is_xor_expr(ms, test):
-                    raise UnknownIdiom('match_score: exact-parameter test %s' % short(e2.test, 60))
-                lower(2, min(a, b))
-                exact_vals.add((a, b))
-                run.check(a < b, 'an empty symmetric difference of parameter names scores above a non-empty one', ms, e2,
-                          runtime_witness='a range with extraneous parameters outranks the exactly matching range')
-            else:
-                raise UnknownIdiom('match_score: exact-parameter component %s' % short(e2, 60))
+        if e is not None:
+            try:
+                v = exact_verdict(ret, e)
+            except _OutOfModel as why:
+                raise UnknownIdiom('match_score: exact-parameter component %s (%s)' % (short(_expand_name(ms, e), 60), why))
+            if (2, unparse(e), v.sig) not in done:
+                done.add((2, unparse(e), v.sig))
+                e2 = _expand_name(ms, e)
+                if not v.eq or not v.ne:
+                    raise UnknownIdiom('match_score: the tests guarding %s leave only %s parameter names to score' % (
+                        short(ret, 80), 'equal' if v.eq else 'different'))
+                lower(2, min(v.eq + v.ne))
+                if v.exact:
+                    a, b = v.ne[0], v.eq[0]
+                    exact_vals.add((a, b))
+                    run.check(a < b, 'an empty symmetric difference of parameter names scores above a non-empty one', ms, e2,
+                              runtime_witness='a range with extraneous parameters outranks the exactly matching range')
+                else:
+                    if v.unreadable:
+                        raise UnknownIdiom('match_score: test %s guarding %s' % (short(v.unreadable[0].ast, 60), short(ret, 80)))
+                    family = 'sizes' if _sizes_only(ms, other, e) else 'other'
+                    run.fail('score component 3 is the exact parameter-name match - one value when both parameter-name sets are equal, '
+                             'a smaller one otherwise: %s' % EXACT_LOOKALIKES[family], ms, e2, where=ms.loc(e2),
+                             witness=v.counterexample() + ['returned as component %d of %s' % (
+                                 [i for i, x in enumerate(ret.value.elts) if x is e][0] + 1, short(ret, 100))],
+                             runtime_witness="media type 'text/html; charset=utf-8' against Accept 'text/html;level=1;q=0.1, text/html;q=0.9': "
+                                             'the range with a different parameter counts as an exact parameter match and decides the '
+                                             'quality (0.1 instead of 0.9)')
         e3 = comp_with_role(ret, 3)
         if e3 is not None and (3, unparse(e3)) not in done:
             done.add((3, unparse(e3)))
